@@ -67,6 +67,11 @@ pub type CaseFn = fn(&mut Tape, &mut CaseInfo) -> Result<(), String>;
 /// Runs the oracle on an explicit case (replay without the generator).
 pub type DirectFn = fn(&Value) -> Result<(), String>;
 
+/// Set by the first shard that finds a failing case: the other shards stop generating (only one
+/// counterexample per sub-check is shrunk and reported; on a tree where the property holds this
+/// flag is never set, so evidence stays a pure function of the seed).
+static FOUND: std::sync::atomic::AtomicBool = std::sync::atomic::AtomicBool::new(false);
+
 pub struct SubCheck {
     pub name: &'static str,
     /// what is generated / the oracle / non-trivial rule (goes into evidence.rule)
@@ -169,7 +174,7 @@ fn shard_run(sub: &SubCheck, cases: u32, seed: u64, shard: u64) -> (SubStats, Op
         cases,
         failure_persistence: None,
         rng_seed: RngSeed::Fixed(seed ^ shard.wrapping_mul(0x9E37_79B9_7F4A_7C15)),
-        max_shrink_iters: 4000,
+        max_shrink_iters: if sub.tape_len > 3000 { 400 } else { 2500 },
         max_global_rejects: 1,
         ..Config::default()
     };
@@ -186,6 +191,10 @@ fn shard_run(sub: &SubCheck, cases: u32, seed: u64, shard: u64) -> (SubStats, Op
             let _ = std::fs::write(path, format!("{{\"subcheck\": \"{}\", \"tape\": {:?}}}", sub.name, tape));
         }
         let counting = !failed.get();
+        if counting && FOUND.load(std::sync::atomic::Ordering::Relaxed) {
+            // another shard already holds a counterexample for this sub-check
+            return Ok(());
+        }
         let want = counting && {
             let s = stats_cell.borrow();
             s.samples.len() < 3 && (s.evaluations % sample_every == 0 || s.samples.is_empty())
@@ -213,7 +222,13 @@ fn shard_run(sub: &SubCheck, cases: u32, seed: u64, shard: u64) -> (SubStats, Op
         match res {
             Ok(()) => Ok(()),
             Err(m) => {
-                failed.set(true);
+                if counting {
+                    if FOUND.swap(true, std::sync::atomic::Ordering::SeqCst) {
+                        // lost the race against another shard: do not shrink a second counterexample
+                        return Ok(());
+                    }
+                    failed.set(true);
+                }
                 Err(TestCaseError::fail(m))
             }
         }
@@ -232,6 +247,7 @@ fn shard_run(sub: &SubCheck, cases: u32, seed: u64, shard: u64) -> (SubStats, Op
 /// Run one sub-check over all shards in parallel.
 pub fn run_subcheck(prop: &str, sub: &SubCheck, thorough: bool, seed: u64) -> (SubStats, Option<Failure>) {
     let total = if thorough { sub.thorough } else { sub.quick };
+    FOUND.store(false, std::sync::atomic::Ordering::SeqCst);
     let sub_seed = seed ^ fnv(format!("{prop}/{}", sub.name).as_bytes());
     let per = total / SHARDS as u32;
     let extra = total % SHARDS as u32;
